@@ -13,7 +13,8 @@
             nondeterministic choices carried by the step label.
     Definitions only; the proofs are in Proofs/Pool.v. *)
 From Coq Require Import List NArith Arith Bool.
-From Scion Require Import Lib.Check.
+(* Lib.SmallNat is not used here: the generated case files need it built. *)
+From Scion Require Import Lib.Check Lib.SmallNat.
 Import ListNotations.
 
 Module Pool.
